@@ -65,7 +65,11 @@ def concretise(c, rnd):
         an = c["anchor"]
         xs, ys = q(c["x"]), q(c["y"])
         base = ""
-        if c["via"] == "dir":
+        if c["via"] == "abs-x":
+            pos = f'x="{xs}"'
+        elif c["via"] == "abs-y":
+            pos = f'y="{ys}"'
+        elif c["via"] == "dir":
             base = f'<rect id="b" x="{xs}" y="{ys}" width="1" height="1"/>'
             pos = f'xy="#b|{an} 1"'
         else:
@@ -82,7 +86,11 @@ def concretise(c, rnd):
                 pos = rnd.choice([f'xy2="{both}"', f'xy="{both}" xy-loc="br"'] + ([f'x2="{xs}" y2="{ys}"'] if xs else []))
             else:
                 pos = f'xy="{both}" xy-loc="{an}"'
-        use = f'<reuse id="s" href="#t" {pos}/>'
+        # the reuse element's own style and classes go to the instance, whether or not the template has any
+        sty = rnd.choice(["", ' style="opacity: 0.5"', ' style="opacity: 0.5" class="mine"'])
+        if rnd.random() < 0.4:
+            tpl = tpl.replace('id="t"', 'id="t" style="fill: red"', 1)
+        use = f'<reuse id="s" href="#t" {pos}{sty}/>'
         if c["where"] == "specs":
             return f"<svg>{base}<specs>{tpl}</specs>{use}</svg>"
         if c["where"] == "defs":
@@ -217,6 +225,10 @@ def rel_check(c, resp):
                                              f"{ {k: v / 4 for k, v in c['case']['exp'].items()} }")
         if "t" not in el.classes():
             return ("rel:reusepos:class", f"instance lacks the target's id as class: {dict(el.attrs)}")
+        if 'style="opacity: 0.5"' in c["xml"] and "opacity: 0.5" not in el.attrs.get("style", ""):
+            return ("rel:reusepos:style", f"the reuse element's style did not reach the instance: {dict(el.attrs)}")
+        if 'class="mine"' in c["xml"] and "mine" not in el.classes():
+            return ("rel:reusepos:class", f"the reuse element's class did not reach the instance: {dict(el.attrs)}")
         return None
     if not geom.box_close(geom.el_bbox(el), c["case"]["exp"]):
         return (f"rel:{form}:geometry", f"subject rendered as {el.name} {dict(el.attrs)}; the reference rules give box "
